@@ -29,3 +29,10 @@ Theorem C06_kernel_text_never_crosses_an_epoch : forall mode qs sr0 ep fuel,
   end.
 Proof. exact k_jitvaluefrom_no_cross. Qed.
 Print Assumptions C06_kernel_text_never_crosses_an_epoch.
+
+(* TOTAL correctness (Inv/Jitvaluefrom_functotal.v): no hypothesis at all. *)
+From Verif Require Inv.Jitvaluefrom_functotal.
+Theorem C06_kernel_text_total : forall mode qs sr0 ep,
+  exists fuel, run fuel k_jitvaluefrom (jitvaluefrom_args mode qs sr0 ep) = Return [vf_result (value_from mode qs sr0 ep)].
+Proof. exact Jitvaluefrom_functotal.k_jitvaluefrom_total. Qed.
+Print Assumptions C06_kernel_text_total.
